@@ -83,6 +83,14 @@ def cases():
         return ca.evalf(ca.substitute([e], [x, y], [ca.MX(m["v"]), ca.MX(m["p"])])[0])
     C["substitute"] = subst
 
+    def subst_shapes(ca, m):
+        # substitute follows the argument rules of a Function call: empty replacement = zeros, scalar = broadcast,
+        # transposed vector accepted
+        x = ca.MX.sym("x", 3); y = ca.MX.sym("y", 2); z = ca.MX.sym("z")
+        e = ca.vertcat(x[0] * y[1] + x[2] ** 2 + z, ca.sum1(x) - y[0])
+        return ca.evalf(ca.substitute([e], [x, y, z], [ca.MX(m["v"]).T, ca.MX(m["s"]), ca.MX(0, 1)])[0])
+    C["substitute-empty-scalar-transposed"] = subst_shapes
+
     def fun_named(ca, m):
         x = ca.MX.sym("x", 3); u = ca.MX.sym("u", 2)
         f = ca.Function("f", [x, u], [x[0] * u, ca.vertcat(x, u).T], ["x", "u"], ["a", "b"])
